@@ -1500,6 +1500,10 @@ impl AstNode for ChainSpecificBlock {
                 let block = crate::cardano::CardanoBlock::parse(block)?;
                 Ok(ChainSpecificBlock::Cardano(block))
             }
+            Rule::bitcoin_block => Err(error_at(
+                &block,
+                "bitcoin blocks are not supported yet".to_string(),
+            )),
             x => unreachable!("Unexpected rule in chain_specific_block: {:?}", x),
         }
     }
